@@ -465,6 +465,21 @@ def d5_guard_exactness(ctx, F):
         op = sc["op"] if t_reads else flow._NEG[sc["op"]]     # relation that holds on the continue edge, as written (a op b)
         if not a_len:
             op = flow._FLIP[op]                                # normalise to: remaining OP need
+        # a bound of the form count <= remaining / D is exact only when D is the number of bytes every element certainly occupies
+        lenop = sc["a"] if a_len else sc["b"]
+        rr = flow.root(r, lenop)
+        for _ in range(3):
+            if rr[0] == "rv" and rr[1]["k"] == "cast":
+                rr = flow.root(r, rr[1]["op"])
+        if rr[0] == "rv" and rr[1]["k"] == "binop" and rr[1]["op"] == "Div":
+            d = flow.const_of(rr[1]["b"])
+            if d is None:
+                r2 = flow.root(r, rr[1]["b"])
+                d = flow.const_of(r2[1]) if r2[0] == "const" else None
+            loops_ = flow.loops(r)
+            per_elem = sum(panics.CONST_READS.get(c.name(), 0) for c in r.calls() if loops_ and c.bb in loops_[0])
+            ctx.check(d == per_elem, "C05.D5.guard-exact", "batch-count-divisor",
+                      "the element-count plausibility bound divides the bytes remaining by the %d bytes every element certainly occupies (found divisor %s)" % (per_elem, d), bl["term"]["span"])
         ctx.check(op == "Ge", "C05.D5.guard-exact", "batch-guard-overstrict:%d" % (n - 1),
                   "batch reader continues exactly when remaining >= needed (found: remaining %s needed); a stricter test drops well-formed input that fits exactly" % op, bl["term"]["span"])
     return n
